@@ -131,6 +131,15 @@ def cases(seed, tier):
         c["lazy"] = r.random() < 0.3
         c["with_args"] = r.random() < 0.3
         out.append(c)
+    # batches far above (and not a multiple of) any block size an evaluation path might introduce; cheap: few iterations, simple kernel
+    from .. import targets as T
+
+    for k, N in enumerate([513, 600, 777, 1000, 1025, 2049] if tier == "quick" else [513, 600, 777, 1000, 1025, 2049, 1500, 4097, 3000, 5000] * 3):
+        r = random.Random(sch.np_seed(f"c13.big{k}"))
+        d = r.choice([1, 2])
+        out.append(dict(seed=sch.np_seed(f"sb{k}"), target=dict(T.spec_gauss(d=d, mu=0.2, sig=round(r.uniform(0.1, 0.3), 3)), kind="gauss", **({"blobs": 1} if k % 3 == 2 else {})),
+                        cfg=dict(n_particles=N, ess_ratio=1.0, sample=r.choice(["rwm", "tpcn"]), resample="mult", clustering=False, random_state=r.randrange(1000), n_steps=1, n_max_steps=2),
+                        n_total=2 * N, scenario="plain", eval="scalar", W=r.choice([3, 16]), Wint=r.choice([2, 4]), n_orders=1, ret=None, lazy=False, with_args=False, big=True))
     return out
 
 
